@@ -2,6 +2,7 @@
 Symbolic: heading levels (u8 in 1..6); block kinds / shapes by forking within the bounds."""
 import z3
 from harness import *
+import natives
 
 LEAFS = ('Para', 'Code', 'Rule', 'Table', 'Ref')
 KINDS = ('Para', 'Header', 'Code', 'Rule', 'Quote', 'Bullet', 'Ordered', 'Table', 'Ref', 'EPara')
@@ -391,6 +392,7 @@ class DocHarness(Harness):
         self.max_nest = max_nest or 2
         self.max_items = 3
         self.kinds = kinds
+        self.second_pass = True
         self.bounds = {'blocks_per_note': self.budget, 'nesting': self.max_nest, 'kinds': list(kinds), 'heading_level': '1..6 (symbolic u8)'}
 
     def build(self, ctx, ex, key, blocks_v):
@@ -430,18 +432,136 @@ class DocHarness(Harness):
         pk = {k[1]: c.v for k, (kv, c) in patch.get('keys').d.items()}
         bad = check_ri(pn, pk)
         ctx.law('C20.RI-established-by-patch-graph', not bad, {'input': ctx.input_desc, 'problems': bad[:5]})
+        # ---- second format: what the writer emits is read back (writer harness: as the same blocks) and formatted again
+        if self.second_pass and not ctx.violations:
+            try:
+                line = [0]
+                again_v = graph_to_doc_vals(h, blocks, line)
+            except Unsupported:
+                again_v = None
+            if again_v is not None:
+                g2, gref2 = self.build(ctx, ex, key, h.vec(again_v))
+                tree2 = ex.call('<&Graph as GraphContext>::collect', [Ref(Cell(gref2)), Ref(Cell(key))])
+                it3 = ex.call('Tree::iter', [Ref(Cell(tree2))])
+                blocks2 = ex.call("Projector::project::<TreeIter<'_>>", [it3, Ref(Cell('d'))])
+                lv1, lv2 = [], []
+                a1 = out_seq(out['project'], lv1)
+                a2 = out_seq(std_json(pyval(blocks2)), lv2)
+                f1, f2 = flat_levels(lv1), flat_levels(lv2)
+                same = a1 == a2 and [t for t, v in f1] == [t for t, v in f2] and AND([EQ(x, y) for (t, x), (t2, y) in zip(f1, f2)])
+                ctx.law('C02.second-format-changes-nothing', same, {'input': ctx.input_desc, 'first': a1, 'second': a2, 'levels_first': repr(f1)[:200], 'levels_second': repr(f2)[:200]})
+                ctx.cover('formatted-twice')
+            self.text_fixpoint(ctx, ex, blocks, out, key)
         if any(b['k'] in ('Bullet', 'Ordered') for b in in_n): ctx.cover('list')
         if any(b['k'] == 'Quote' and b['c'] for b in in_n): ctx.cover('quote')
         if gen.levels: ctx.cover('heading')
         if any(b['k'] in ('Bullet', 'Ordered') and any(it and it[0]['k'] in ('Bullet', 'Ordered') for it in b['items']) for b in in_n):
             ctx.cover('merged-item')
         if self.tv_pick(ctx.trace):
-            ctx.tv = {'script': self.script(in_n, ctx.model()), 'expect': [None, out['arena'], out['tree'], out['project']]}
+            ctx.tv = {'script': self.script(in_n, ctx.model()) + [{'op': 'format_twice', 'key': 'd/a'}], 'expect': [None, out['arena'], out['tree'], out['project'], None],
+                      'post': ['doc', bool([v for v in ctx.violations if not v['law'].startswith('C02.formatting')]), getattr(ctx, 'c02_text_same', None)]}
         return sample
+
+    def text_fixpoint(self, ctx, ex, blocks, out, key):
+        """format, read the text back, format again - the writer, builder and projector are the real ones (MIR), the reader is
+        the reference reader (mdref, validated against the real reader); the two texts must be equal"""
+        import mdref
+        h, prog = self.h, self.prog
+        if has_table(out['project']):
+            # a table is written by the cmark writer (outside); for the layout of the blocks around it, it stands as one
+            # leaf that is not a paragraph (a code block)
+            ctx.cover('table-as-opaque-leaf')
+            blocks = tables_as_leaves(prog, blocks)
+        ctx.sym_repeat = []
+        opts = prog.mk_struct_lenient('model::config::MarkdownOptions', refs_extension='')
+        text1 = natives.as_str(ex.call('model::graph::blocks_to_markdown_sparce', [Ref(Cell(blocks)), Ref(Cell(opts))]))
+        # the inlines of every paragraph-like block, by the text the writer gave them
+        inl_of = {}
+        def collect(bs):
+            for c in bs.items:
+                b = c.v
+                if b.vn in ('Para', 'Plain', 'Header'):
+                    iv = b.f[0].v if b.vn != 'Header' else b.f[1].v
+                    t = natives.as_str(ex.call('model::graph::inlines_to_markdown', [Ref(Cell(iv)), Ref(Cell(opts))]))
+                    inl_of[t] = iv
+                elif b.vn == 'BlockQuote': collect(b.f[0].v)
+                elif b.vn in ('BulletList', 'OrderedList'):
+                    for it in b.f[0].v.items: collect(it.v)
+        collect(blocks)
+        levels = list(ctx.sym_repeat)
+        tree1 = mdref.neutral(mdref.parse(text1))
+        line = [0]
+        def lr(n=1):
+            r = h.rng(line[0], line[0] + n); line[0] += n + 1
+            return r
+        def inl(t):
+            iv = inl_of.get(t)
+            if iv is None:
+                return [h.istr(t)]
+            return graph_inlines_to_doc(h, iv)
+        def vals(bs):
+            o = []
+            for b in bs:
+                k = b['k']
+                if k == 'P': o.append(h.para(inl(b['t']), lr()))
+                elif k == 'H':
+                    lv = b['lv']
+                    o.append(h.header(levels[lv[1]] if isinstance(lv, tuple) else lv, inl(b['t']), lr()))
+                elif k == 'C': o.append(h.code(b['t'].rstrip('\n'), b.get('lang'), lr(3)))
+                elif k == 'R': o.append(h.rule(lr()))
+                elif k == 'Q':
+                    r = lr(0); o.append(h.quote(vals(b['c']), r))
+                else:
+                    items = [vals(it) for it in b['items']]
+                    o.append(h.bullets(items) if k == 'BL' else h.ordered(items))
+            return o
+        try:
+            again = vals(tree1)
+        except Unsupported:
+            ctx.cover('inline-outside-the-text-claim')
+            return
+        n_v = len(ctx.violations)
+        g2, gref2 = self.build(ctx, ex, key, h.vec(again))
+        tree2 = ex.call('<&Graph as GraphContext>::collect', [Ref(Cell(gref2)), Ref(Cell(key))])
+        it3 = ex.call('Tree::iter', [Ref(Cell(tree2))])
+        blocks2 = ex.call("Projector::project::<TreeIter<'_>>", [it3, Ref(Cell('d'))])
+        ctx.sym_repeat = []
+        text2 = natives.as_str(ex.call('model::graph::blocks_to_markdown_sparce', [Ref(Cell(blocks2)), Ref(Cell(opts))]))
+        levels2 = list(ctx.sym_repeat)
+        ctx.sym_repeat = None
+        # equal texts: same characters, and the symbolic heading depths pairwise equal
+        m1 = [ord(ch) - 0xE000 for ch in text1 if 0xE000 <= ord(ch) <= 0xE0FF]
+        m2 = [ord(ch) - 0xE000 for ch in text2 if 0xE000 <= ord(ch) <= 0xE0FF]
+        plain = lambda t: ''.join('\ue000' if 0xE000 <= ord(ch) <= 0xE0FF else ch for ch in t)
+        same = plain(text1) == plain(text2) and len(m1) == len(m2) and AND([EQ(levels[a], levels2[b]) for a, b in zip(m1, m2)])
+        why = not_writable(out['project'])
+        ctx.c02_why = why
+        ctx.c02_text_same = same if isinstance(same, bool) else None
+        ctx.law('C02.formatting-the-formatted-text-changes-nothing', same, {'input': ctx.input_desc, 'first': plain(text1).replace('\ue000', '#'), 'second': plain(text2).replace('\ue000', '#'), 'why': why})
+        ctx.cover('text-formatted-twice')
 
     def tv_pick(self, trace):
         import zlib
         return zlib.crc32(repr(trace).encode()) % self.tv_every == self.tv_phase
+
+    def tv_compare(self, tv, native_out):
+        exp = tv['expect']
+        if len(exp) != len(native_out) or not all(e is None or e == a for e, a in zip(exp, native_out)):
+            tv['diff'] = 'arena / tree / projection differ'
+            return False
+        ft = native_out[-1]
+        if isinstance(ft, list) and len(ft) == 2:
+            native_same = ft[0] == ft[1]
+            if tv['post'][2] is not None and tv['post'][2] != native_same:
+                # the executor's two formats (reference reader in between) and the real two formats disagree
+                tv['diff'] = {'executor_says_text_stable': tv['post'][2], 'native_format_twice': ft}
+                return False
+            if tv['post'][2] is None and not tv['post'][1] and not native_same:
+                # outside the executor's text claim (tables, symbolic depth): the real text layer on a path where every law held
+                tv['diff'] = {'format_twice': ft}
+                tv['c02_native'] = True
+                return False
+        return True
 
     def script(self, in_n, model):
         return [{'op': 'doc', 'key': 'd/a', 'blocks': concretize_tree(in_n, model)}, {'op': 'arena'}, {'op': 'collect', 'key': 'd/a'},
@@ -510,6 +630,8 @@ class DocHarness(Harness):
     def role_of(self, v, tree):
         if v['law'] == 'C03.no-panic' and 'section block panic' in (v['info'].get('msg') or ''):
             return 'list-item-first-block=' + first_bad_item_kind(tree)
+        if v['law'] == 'C02.formatting-the-formatted-text-changes-nothing':
+            return v['info'].get('why') or 'general'
         if has_list_first_item_with_more(tree):
             return 'item-starts-with-list-and-has-further-blocks'
         return 'general'
@@ -530,6 +652,18 @@ class DocHarness(Harness):
             v['replay_verdict'] = 'no native panic'
             return False
         out = {'arena': res[1], 'keys': res[2], 'tree': res[3], 'project': res[4]}
+        if v['law'] in ('C02.second-format-changes-nothing', 'C02.formatting-the-formatted-text-changes-nothing'):
+            s2 = [{'op': 'doc', 'key': 'd/a', 'blocks': v['input_tree']}, {'op': 'to_markdown', 'key': 'd/a'}]
+            r2 = driver.run(s2)
+            t1 = r2[-1]
+            if not isinstance(t1, str):
+                v['replay_verdict'] = 'native first format failed: %s' % str(t1)[:100]; return False
+            r3 = driver.run([{'op': 'new_graph'}, {'op': 'markdown', 'key': 'd/a', 'text': t1}, {'op': 'to_markdown', 'key': 'd/a'}])
+            t2 = r3[-1]
+            v['replay_script'] = s2 + [{'op': 'markdown', 'key': 'd/a', 'text': t1}, {'op': 'to_markdown', 'key': 'd/a'}]
+            v['replay_result'] = [t1, t2]
+            v['replay_verdict'] = 'real format twice: %s' % ('second text DIFFERS' if t1 != t2 else 'same text')
+            return t1 != t2
         if v['law'] in ('C01.copy-through-builder-keeps-every-block', 'C07.copy-through-builder-keeps-the-outline', 'C20.RI-established-by-patch-graph'):
             same = strip_tree_ids(res[3]) == strip_tree_ids(res[5]['tree'])
             bad = check_ri(res[5]['arena'], res[5]['keys'])
@@ -544,6 +678,111 @@ class DocHarness(Harness):
         v['replay_verdict'] = 'native laws violated: %s' % failed
         return v['law'] in failed
 
+
+def not_writable(blocks):
+    """projected GraphBlocks (neutral JSON) the Markdown writer has no stable text for; None if there is none"""
+    prev = None
+    for b in blocks:
+        v = b['_v']
+        if v == 'BlockQuote':
+            if not b['_0']: return 'empty-container'
+            w = not_writable(b['_0'])
+            if w: return w
+        elif v in ('BulletList', 'OrderedList'):
+            if not b['_0'] or any(not it for it in b['_0']): return 'empty-container'
+            if prev == v: return 'adjacent-lists-of-one-kind'
+            for it in b['_0']:
+                w = not_writable(it)
+                if w: return w
+        prev = v
+    return None
+
+def tables_as_leaves(prog, bs):
+    out = []
+    for c in bs.items:
+        b = c.v
+        if b.vn == 'Table':
+            cell = b.f[0].v.items[0].v if b.f[0].v.items else None
+            name = 'TABLE'
+            if cell is not None and cell.items and cell.items[0].v.vn == 'Str':
+                name = 'TABLE' + cell.items[0].v.f[0].v
+            out.append(prog.mk_enum('model::graph::GraphBlock', 'CodeBlock', NONE(), name))
+        elif b.vn == 'BlockQuote':
+            out.append(prog.mk_enum('model::graph::GraphBlock', 'BlockQuote', tables_as_leaves(prog, b.f[0].v)))
+        elif b.vn in ('BulletList', 'OrderedList'):
+            out.append(prog.mk_enum('model::graph::GraphBlock', b.vn, VecV([Cell(tables_as_leaves(prog, it.v)) for it in b.f[0].v.items])))
+        else:
+            out.append(b)
+    return VecV([Cell(x) for x in out])
+
+def has_table(blocks):
+    for b in blocks:
+        v = b['_v']
+        if v == 'Table': return True
+        if v == 'BlockQuote' and has_table(b['_0']): return True
+        if v in ('BulletList', 'OrderedList') and any(has_table(it) for it in b['_0']): return True
+    return False
+
+def graph_inlines_to_doc(h, xs):
+    out = []
+    for c in xs.items:
+        i = c.v
+        if i.vn == 'Str': out.append(h.istr(i.f[0].v))
+        elif i.vn == 'Space': out.append(h.ispace())
+        elif i.vn == 'Emph': out.append(h.iemph(graph_inlines_to_doc(h, i.f[0].v)))
+        elif i.vn == 'Link':
+            kids = i.f[3].v.items
+            if len(kids) != 1 or kids[0].v.vn != 'Str' or i.f[2].v.vn != 'Regular':
+                raise Unsupported('second pass: link shape')
+            out.append(h.ilink(i.f[0].v, kids[0].v.f[0].v))
+        else:
+            raise Unsupported('second pass: inline ' + i.vn)
+    return out
+
+def graph_to_doc_vals(h, bs, line):
+    """GraphBlocks (values, symbolic leaves kept) -> the Document blocks the reader yields for their text (writer harness:
+    the text reads back as the same blocks); line ranges are fresh"""
+    def lr(n=1):
+        r = h.rng(line[0], line[0] + n); line[0] += n + 1
+        return r
+    def inl(xs):
+        out = []
+        for c in xs.items:
+            i = c.v
+            if i.vn == 'Str': out.append(h.istr(i.f[0].v))
+            elif i.vn == 'Space': out.append(h.ispace())
+            elif i.vn == 'Emph': out.append(h.iemph(inl(i.f[0].v)))
+            elif i.vn == 'Link':
+                kids = i.f[3].v.items
+                if len(kids) != 1 or kids[0].v.vn != 'Str' or i.f[2].v.vn != 'Regular':
+                    raise Unsupported('second pass: link shape')
+                out.append(h.ilink(i.f[0].v, kids[0].v.f[0].v))
+            else:
+                raise Unsupported('second pass: inline ' + i.vn)
+        return out
+    out = []
+    for c in bs.items:
+        b = c.v
+        vn = b.vn
+        if vn in ('Para', 'Plain'): out.append(h.para(inl(b.f[0].v), lr()))
+        elif vn == 'Header': out.append(h.header(b.f[0].v, inl(b.f[1].v), lr()))
+        elif vn == 'CodeBlock':
+            lang = b.f[0].v
+            out.append(h.code(b.f[1].v, lang.f[0].v if lang.vi == 1 else None, lr(3)))
+        elif vn == 'HorizontalRule': out.append(h.rule(lr()))
+        elif vn == 'BlockQuote':
+            r = lr(0)
+            out.append(h.quote(graph_to_doc_vals(h, b.f[0].v, line), r))
+        elif vn in ('BulletList', 'OrderedList'):
+            items = [graph_to_doc_vals(h, it.v, line) for it in b.f[0].v.items]
+            out.append(h.bullets(items) if vn == 'BulletList' else h.ordered(items))
+        elif vn == 'Table':
+            header = [inl(cell.v) for cell in b.f[0].v.items]
+            rows = [[inl(cell.v) for cell in row.v.items] for row in b.f[2].v.items]
+            out.append(h.table(header, rows, lr(3)))
+        else:
+            raise Unsupported('second pass: block ' + vn)
+    return out
 
 def concretize_tree(blocks, model):
     out = []
